@@ -389,6 +389,21 @@ def run_property(modname, tier, seed, nproc=None, only=None, verbose=False):
         print('VIOLATION property=%s replay=%s' % (prop, path))
         print('  harness=%s cfg=%s failed=%s inputs=%s' % (
             it['harness'], json.dumps(it['cfg']), json.dumps(infos), json.dumps(it['inputs'])))
+    # ---- property-specific extra obligations (e.g. C03 hash-seed summaries) --------------------
+    extra_ev = []
+    if hasattr(mod, 'extra_checks') and not only:
+        for x in mod.extra_checks(tier, seed):
+            extra_ev.append(x)
+            if x['ok'] is None:
+                harness_errors.append('extra check %s inconclusive: %s' % (x['label'], str(x['info'])[:300]))
+            elif not x['ok']:
+                nviol += 1
+                body = {'property': prop, 'module': modname, 'extra': True, 'labels': [x['label']], 'info': x['info']}
+                dg = hashlib.sha256(json.dumps(body, sort_keys=True, default=str).encode()).hexdigest()[:12]
+                path = os.path.join(VERIF, 'replays', '%s-%s.json' % (prop, dg))
+                json.dump(body, open(path, 'w'), indent=1, default=str)
+                print('VIOLATION property=%s replay=%s' % (prop, path))
+                print('  %s %s' % (x['label'], json.dumps(x['info'], default=str)[:400]))
     for what, n in known_hit.items():
         print('KNOWN-FINDING: property=%s %s' % (prop, what))
     # ---- vacuity ---------------------------------------------------------------
@@ -441,6 +456,7 @@ def run_property(modname, tier, seed, nproc=None, only=None, verbose=False):
             'known_findings_hit': known_hit,
             'harness_errors': harness_errors[:10],
             'per_job': per_job[:60],
+            'extra_checks': extra_ev[:20],
             'budget_s': budget,
         },
         'assumptions': meta.get('assumptions', []) + [
